@@ -140,7 +140,7 @@ def corpus():
                             callers=[dict(kind='stream', items=items, rexc=True, stop_after=1, stop_mode=mode)]))
             out.append(dict(kind=kind, cap=2, nworkers=2, nreq=10, followups=1, exit_busy=False, chooser=['sticky', 0.2, 0.0], seed=8,
                             callers=[dict(kind='stream', items=items, rexc=False, stop_after=2, stop_mode=mode)]))
-    # a stream left open with a slow source, the server entered again before the stream is closed (seeded C07-10)
+    # a stream left open with a slow source, the server entered again before the stream is closed (seeded C07-8)
     for cap_, ch, seed in ((1, ['random', 0.0], 22), (1, ['random', 0.0], 25), (1, ['sticky', 0.2, 0.0], 1), (1, ['sticky', 0.2, 0.0], 2),
                            (2, ['random', 0.0], 0), (2, ['sticky', 0.2, 0.0], 32), (3, ['random', 0.0], 0), (3, ['random', 0.0], 1)):
         items = [dict(r=i, dur=1, fail=False) for i in range(10)]
